@@ -173,6 +173,14 @@ CutOne(x, b, right, bounds) ==
          ELSE LET hits == {k \in 1..(Len(b) - 1) :
                              IF right THEN b[k] < x /\ x <= b[k + 1] ELSE b[k] <= x /\ x < b[k + 1]}
               IN  IF hits = {} THEN -1 ELSE (CHOOSE k \in hits : TRUE) - 1
+\* the label series may itself hold a null (label index nulllab, -1 for none): a value in that bin
+\* gets the null label - which is a result, not an error
+CutOneL(x, b, right, bounds, nulllab) ==
+    LET k == CutOne(x, b, right, bounds) IN IF k >= 0 /\ k = nulllab THEN -2 ELSE k
+\* C14: an error is reported for values outside all intervals only, whatever the labels are
+ErrorOnlyOutside(b) ==
+    \A x \in Elem, right \in BOOLEAN, bounds \in BOOLEAN, nulllab \in -1..Len(b) :
+        (CutOneL(x, b, right, bounds, nulllab) = -1) <=> (CutOne(x, b, right, bounds) = -1)
 CutCallOK(b, nl, bounds) == IF bounds THEN nl = Len(b) + 1 ELSE nl + 1 = Len(b)
 
 Ascending(b) == \A i \in 1..(Len(b) - 1) : b[i] < b[i + 1]
